@@ -412,6 +412,61 @@ pub async fn run(cx: &mut Ctx) {
                 }
             }
         }
+        // queries that read only some of the files: the row count (no user column at all) and
+        // single columns - each returns an error or exactly what the original table gives
+        if cx.vio.len() == vio_before {
+            'p: for n in &names {
+                let def = &model.tables[n].0;
+                let want_rows = &expected[n];
+                let mut probes: Vec<(String, Vec<Row>)> =
+                    vec![(format!("SELECT count(*) FROM {n}"), vec![vec![Val::Int(want_rows.len() as i64)]])];
+                for k in 0..2usize.min(def.cols.len()) {
+                    let ci = (ci + k * 7 + c.pos as usize) % def.cols.len();
+                    let mut col: Vec<Row> = want_rows.iter().map(|r| vec![r[ci].clone()]).collect();
+                    col.sort();
+                    probes.push((format!("SELECT {} FROM {n}", def.cols[ci].name), col));
+                }
+                for (sql, want) in probes {
+                    let o = db.exec(&sql).await;
+                    cx.stats.evaluations += 1;
+                    match &o {
+                        Outcome::Ok(rows) => {
+                            let mut r = rows.clone();
+                            r.sort();
+                            if r != want {
+                                cx.violate(
+                                    Violation::new(
+                                        "C18",
+                                        "altered-rows-returned",
+                                        Some(ci),
+                                        format!(
+                                            "{label}: {sql} returned Ok with {}",
+                                            multiset_diff(&r, &want).unwrap_or_default()
+                                        ),
+                                    )
+                                    .with_sig("partial-read"),
+                                );
+                                break 'p;
+                            }
+                        }
+                        Outcome::Err(_) => detected = true,
+                        Outcome::Panic(m) => {
+                            detected = true;
+                            cx.violate(
+                                Violation::new(
+                                    "C18",
+                                    "panic-on-corrupt-data",
+                                    Some(ci),
+                                    format!("{label}: {sql} panicked the session: {m}"),
+                                )
+                                .with_sig(&crate::hist::panic_site(m)),
+                            );
+                            break 'p;
+                        }
+                    }
+                }
+            }
+        }
         crate::run::set_crumb(None);
         if detected {
             cx.probe("corruption-detected-by-query");
